@@ -299,8 +299,10 @@ func vOffsetsOne(text string, form string) {
 		}
 		return
 	}
-	// "expected id at offset N": no id character at that offset of the caller's string
-	if strings.HasPrefix(head, "expected id") {
+	// no cited lexeme: for a stray byte or a truncated reference the message locates a
+	// missing id, so no id character stands at that offset of the caller's string (the
+	// wording of the message is not prescribed)
+	if form != "id" {
 		if off < len(text) {
 			vAssert(!vIsIDChar(text[off]), "missing-id-offset")
 		}
